@@ -583,4 +583,14 @@ example :
       showRows (evalValuesT g κ [0, 1, 2, 3] [(.var 0, .const 10, .var 1)] tails) = [[some 1, some 2, some 5, some 6]] := by
   decide
 
+/-- a sub-SELECT under a lazy join: its un-projected variable `?1` is not correlated with the outer `?1` (the
+    sub-select runs in a cleaned context), its projected `?0` is joined; same answers with the outer BGP permuted -/
+example :
+    let ds : DSet := { dflt := graphStore [(1, 10, 2), (3, 10, 4), (1, 11, 5)], named := [] }
+    let q : P 2 := .join (.bgp [(.var 0, .const 10, .var 1), (.var 0, .const 10, .var 1)])
+                         (.sub [0] (.bgp [(.var 0, .const 11, .var 1)]))
+    RwB q (.join (.bgp [(.var 0, .const 10, .var 1), (.var 0, .const 10, .var 1)]) (.sub [0] (.bgp [(.var 0, .const 11, .var 1)]))) ∧
+      showRows (evalSelectTD ds Row.empty [0, 1] q) = [[some 1, some 2]] := by
+  exact ⟨.refl _, by decide⟩
+
 end RV.C15
